@@ -6,7 +6,7 @@ from engine import graph, tlc
 
 SPEC = "OrmSession"
 ALL_ACTS = ["SetV", "SetPk", "Sp", "Expunge", "Expire", "Refresh", "Get", "Close", "MakeTransient", "Fail", "Redo", "Misuse"]
-DEV_ALL = ["a", "b", "c", "d", "e", "f2", "g", "h", "gsw", "eoc", "ksw", "kswx", "kswmerge"]
+DEV_ALL = ["a", "b", "c", "d", "e", "f2", "g", "h", "gsw", "rsw2", "eoc", "ksw", "kswx", "kswmerge"]
 
 
 def q(s):
@@ -91,6 +91,10 @@ def probe_deviations(workdir):
         rets, o = run([("Add", "o1"), ("SetPk", ("o1", 2)), ("Commit", None), ("Delete", "o1"), ("Add", "o2"), ("Get", 2)])
         if rets[-1] == "obj:o1":
             dev.add("gsw")
+        rets, o = run([("Add", "o1"), ("Flush", None), ("Delete", "o1"), ("Add", "o3"), ("SetPk", ("o2", 1)), ("Add", "o2"), ("Flush", None)],
+                      pks={"o1": 1, "o2": 2, "o3": 1})
+        if rets[-1] == "ok" and o["o"]["o2"]["life"] == "persistent" and o["o"]["o3"]["life"] == "persistent":
+            dev.add("rsw2")
         _, o = run([("Add", "o1"), ("Commit", None), ("Delete", "o1"), ("Commit", None)], eoc=False)
         if o["o"]["o1"]["life"] == "deleted":
             dev.add("eoc")
@@ -126,6 +130,7 @@ DEV_WHAT = {
     "g": "expunge() of a deleted object inside a savepoint leaves it in the outer transaction's snapshot: commit fires deleted_to_detached again for the detached object (make_transient + rollback raises)",
     "h": "rollback fires pending_to_transient for an object make_transient() already sent to transient",
     "gsw": "Session.get() on an expired entry whose row is switched to another object by the autoflush returns the old object (deleted state, refreshed from the other object's row) instead of the identity map's object",
+    "rsw2": "two pending objects that carry the primary key of an object deleted in the same flush are BOTH turned into an UPDATE of that row (row switch): both end persistent under one identity key, the identity map keeps one of them (hash order) and only warns 'Identity map already had an identity ... replacing it'",
     "eoc": "expire_on_commit=False: delete(o); commit() leaves o in the deleted state bound to the session; deleted_to_detached never fires",
     "ksw": "rollback of a transaction that inserted an object and switched its primary key restores the old key on the now transient object: it ends detached with the identity of a row that does not exist",
     "kswx": "rollback of a primary key switch re-inserts an object into the identity map that was expunged since: a detached object in the identity map, get() raises DetachedInstanceError",
